@@ -6,6 +6,8 @@ import (
 
 	"harness/sx"
 
+	sio "github.com/pip-services3-gox/pip-services3-expressions-gox/io"
+	"github.com/pip-services3-gox/pip-services3-expressions-gox/tokenizers/generic"
 	"github.com/pip-services3-gox/pip-services3-expressions-gox/tokenizers/utilities"
 )
 
@@ -217,6 +219,61 @@ func runC17(in sx.SX) (obs sx.SX, fail string) {
 			fail = fmt.Sprintf("Lookup(%#x) returned %v, the most recent covering registration carries %v", c, got, c17refs[want])
 		}
 		out = append(out, sx.I(code))
+	}
+	// "a tokenizer hands every character of a configured range to the configured state, and disabling a range really
+	// disables it": the same history replayed on the word and whitespace states (reference = enabled, nil = disabled)
+	if fail == "" {
+		ws := generic.NewGenericWhitespaceState()
+		wd := generic.NewGenericWordState()
+		ws.ClearWhitespaceChars()
+		wd.ClearWordChars()
+		statePanic := false
+		func() {
+			defer func() {
+				if recover() != nil {
+					statePanic = true
+				}
+			}()
+			for _, o := range sx.AsList(l[0]) {
+				oo := sx.AsList(o)
+				switch sx.AsInt(oo[0]) {
+				case 0:
+					a, b, r := rune(sx.AsInt(oo[1])), rune(sx.AsInt(oo[2])), sx.AsInt(oo[3]) != 0
+					ws.SetWhitespaceChars(a, b, r)
+					wd.SetWordChars(a, b, r)
+				case 1:
+					r := sx.AsInt(oo[1]) != 0
+					ws.SetWhitespaceChars(0, 0xfffe, r)
+					wd.SetWordChars(0, 0xfffe, r)
+				default:
+					ws.ClearWhitespaceChars()
+					wd.ClearWordChars()
+				}
+			}
+		}()
+		for _, p := range sx.AsList(l[1]) {
+			c := sx.AsInt(p)
+			if statePanic || fail != "" || c < 0 || c > 0xfffe || (c >= 0xd800 && c <= 0xdfff) {
+				continue
+			}
+			enabled := false
+			for i := len(hist) - 1; i >= 0; i-- {
+				if hist[i].a <= c && c <= hist[i].b {
+					enabled = hist[i].ref != 0
+					break
+				}
+			}
+			text := string(rune(c)) + string(rune(c))
+			want := ""
+			if enabled {
+				want = text
+			}
+			if got := ws.NextToken(sio.NewStringScanner(text), nil).Value(); got != want {
+				fail = fmt.Sprintf("whitespace state configured by the same history (enabled at %#x: %v) read %s from %s", c, enabled, sx.Quote(got), sx.Quote(text))
+			} else if got := wd.NextToken(sio.NewStringScanner(text), nil).Value(); got != want {
+				fail = fmt.Sprintf("word state configured by the same history (enabled at %#x: %v) read %s from %s", c, enabled, sx.Quote(got), sx.Quote(text))
+			}
+		}
 	}
 	return sx.L(sx.I(0), out), fail
 }
